@@ -132,3 +132,123 @@ def lines(run):
         elif kind == "sstop":
             out.append("%d sinkStop %d" % (t, tag2hid[obj]))
     return out
+
+
+# ----------------------------------------------------------------------------- activation acceptor (drivers/C02act.lean)
+def act_lines(run, mod):
+    """Projection of a real trace on the activation protocol for ONE module name: every enable()/disable() of the
+    run and the log calls made from module `mod` that reach the activation test.  Returns (lines, meta, rules) where
+    meta[i] describes what the real code did at line i (None when there is nothing to compare) and rules[k] is the
+    (name, status) of the k-th published change, or None when the run is outside the model."""
+    s = run.sched
+    if s.deadlock or s.errors or s.aborted:
+        return None
+    tr = s.trace
+    out, meta, rules = ["reset"], [None], []
+    dictnum = {}
+    nextdict = [1]
+    st = {}
+
+    def emit(line, m=None):
+        out.append(line)
+        meta.append(m)
+
+    def op_events(pos, tn):
+        """events of thread tn from pos+1 up to (excluding) its next return"""
+        for e in tr[pos + 1:]:
+            if e[0] == tn:
+                if e[1] == "return":
+                    return
+                yield e
+
+    for pos, (tn, kind, obj, val) in enumerate(tr):
+        if not tn.startswith("t"):
+            return None
+        t = int(tn[1:])
+        cur = st.get(t)
+        if kind == "invoke":
+            op = json.loads(val)
+            if op[0] in ("enable", "disable"):
+                if not isinstance(op[1], str):
+                    return None
+                st[t] = {"op": "change", "name": op[1], "status": op[0] == "enable"}
+                emit("%d startChange" % t)
+            elif op[0] == "log" and op[1] == mod:
+                evs = list(op_events(pos, tn))
+                nen = sum(1 for e in evs if e[1] == "Rv" and e[2] == "core.enabled")
+                if nen == 0:
+                    st.pop(t, None)          # returned before the activation test (no handler / below min_level)
+                    continue
+                seen_en, decided = False, False
+                for e in evs:
+                    if e[1] == "Rv" and e[2] == "core.enabled":
+                        seen_en = True
+                    elif seen_en and e[1] == "Rv" and e[2] == "core.handlers":
+                        decided = True
+                st[t] = {"op": "log", "reads": 0, "miss": nen >= 2, "enabled": decided, "id": obj}
+                emit("%d startLog" % t)
+            else:
+                st.pop(t, None)
+        elif cur is None:
+            continue
+        elif kind == "return":
+            if cur["op"] == "log":
+                emit("%d done" % t, ("done", cur["enabled"], cur["id"]))
+            st.pop(t, None)
+        elif cur["op"] == "change":
+            if kind == "acquired" and obj == "core":
+                emit("%d acq" % t)
+            elif kind == "Rv" and obj == "core.enabled":
+                cur["d"] = nextdict[0]
+                nextdict[0] += 1
+                emit("%d copy" % t, ("copy", cur["d"]))
+            elif kind == "W" and obj == "core.activation_list":
+                rules.append((cur["name"], cur["status"]))
+                emit("%d pubAct" % t)
+            elif kind == "W" and obj == "core.enabled":
+                dictnum[val[1]] = cur["d"]
+                emit("%d pubEn" % t)
+            elif kind == "rel" and obj == "core":
+                emit("%d rel" % t)
+        elif cur["op"] == "log":
+            if kind == "Rv" and obj == "core.enabled":
+                d = dictnum.setdefault(val[1], 0)
+                cur["reads"] += 1
+                if cur["reads"] == 1:
+                    emit("%d readEn %d" % (t, d), ("readEn", cur["miss"], cur["id"]))
+                else:
+                    emit("%d readEn2 %d" % (t, d))
+            elif kind == "Rv" and obj == "core.activation_list":
+                emit("%d readAct %d" % (t, len(rules)))
+                emit("%d fill" % t)
+    return out, meta, rules
+
+
+def act_judge(lines, meta, rules, outs, mod, spec):
+    """compare the acceptor's answers with the real run; returns a list of disagreement strings"""
+    bad = []
+    for i, (m, o) in enumerate(zip(meta, outs)):
+        if o.startswith(("reject", "bad-op")):
+            bad.append("event %d %r rejected by Activation.step: %s" % (i, lines[i], o))
+            break
+        if m is None:
+            continue
+        w = o.split()
+        if m[0] == "copy":
+            if w[1:] != ["dict", str(m[1])]:
+                bad.append("event %d: dict numbering differs (%r vs %r)" % (i, o, m))
+        elif m[0] == "readEn":
+            model_miss = w[1] == "miss"
+            if model_miss != m[1]:
+                bad.append("log call %s of module %r: the model has a cache %s, the implementation a cache %s"
+                           % (m[2], mod, "miss" if model_miss else "hit", "miss" if m[1] else "hit"))
+        elif m[0] == "done":
+            v, r = int(w[2]), int(w[3])
+            want = spec(rules[:v], mod)
+            if want != m[1]:
+                bad.append("log call %s of module %r: the model's call used rule-set version %d (%r => %s), the "
+                           "implementation treated the module as %s"
+                           % (m[2], mod, v, rules[:v], "enabled" if want else "disabled", "enabled" if m[1] else "disabled"))
+            if v < r:
+                bad.append("log call %s: used version %d although version %d had been returned before it began" % (m[2], v, r))
+    return bad
